@@ -237,55 +237,56 @@ theorem traces_live (fs : FS) (root : Nat) (forest : List Tree) (traces : List (
 `closeAll …`), for `.error e` the error with its position set to 0 (file id and kind are kept). Positions and
 traces differ between the two runs. The two runs may use different amounts of fuel, as long as neither runs out. -/
 
-/-- (6) TEXTUAL INCLUSION: let `f` be a regular file whose tokens `body` contain no INCLUDE and no JSIGHT, and let the
-    including file `cur` not be on the stack. From the same state, the scan of `pre ++ incl f :: post` (cut) and the
-    scan of `pre ++ body ++ post` (spliced) end alike — the same context and pending directive, or the same error up
-    to its position — unless the cut run ends with `unclosedAtEOF`: the ONLY thing an INCLUDE adds to its text is that
-    the included file must not end inside a parenthesised context (see the examples).
-    (Before the repair F42 the exception was "unless the cut run ends in a context error": the directive pending at
-    the end of `f` is placed there, but was not placed by an INCLUDE that follows in the spliced text.  Now both the
-    directive written before the INCLUDE and the one pending at the end of `f` are placed at the same moment in both
-    runs, and no special treatment of the pending directive at the two boundaries is left.) -/
+/-- (6) TEXTUAL INCLUSION, without exception: let `f` be a regular file whose tokens `body` contain no INCLUDE and no
+    JSIGHT, and let the including file `cur` not be on the stack. From the same state, the scan of
+    `pre ++ incl f :: post` (cut) and the scan of `pre ++ body ++ post` (spliced) end alike — the same context and
+    pending directive (hence the same forest), or the same error up to its position (`view`): AN INCLUDED FILE BEHAVES
+    EXACTLY AS ITS TEXT WRITTEN IN PLACE OF THE INCLUDE.
+    RESTATED (stronger) after the repair of `processEOF`: before, the statement had the alternative "… or the cut run
+    is exactly `.error (.ctx .unclosedAtEOF)`", because the unclosed-parenthesis check was made at the end of every
+    file, so that an included file could neither end inside a parenthesis of its own nor be included inside a
+    parenthesis of the including file.  Now the check is made at the end of the root file only (`stack = []`), the
+    included file is scanned below the non-empty stack `(cur, pos) :: stack`, and the alternative is gone.
+    What is still done at the end of the included file is the placement of its last directive (`processEOF` →
+    `processCurrentDirective`); that makes no difference to the result: in the spliced run the same directive is placed
+    at the very next step (the next keyword, ")", INCLUDE, or the end of the file), before anything else is looked
+    at, with the same outcome — the same context error, or the same context afterwards (`scanIncFile_flush`,
+    `pending_error_first`).  The residual differences are only those that `view` erases: the positions inside
+    diagnostics about INCLUDEs / JSIGHT (token indices of `post` shift by `body.length - 1`) and the recorded include
+    traces of the directives of `body` (`(cur, pos) :: stack` against `stack`).
+    (History: before the repair F42 the exception was "unless the cut run ends in a context error".) -/
 theorem include_is_textual (fs : FS) (stack : List (Nat × Nat)) (cur pos f : Nat) (pre body post : List FTok)
     (st : PScan) (hf : fs.get? f = some (.file body)) (hincl : ∀ g v, FTok.incl g v ∉ body)
     (hjs : ∀ d, FTok.dir d ∈ body → d.kind ≠ Kind.Jsight) (hs : stack.any (·.1 == cur) = false) (n1 n2 : Nat)
     (h1 : scanIncFile fs n1 stack cur pos (pre ++ FTok.incl f true :: post) st ≠ .error (.inc .fuel))
     (h2 : scanIncFile fs n2 stack cur pos (pre ++ (body ++ post)) st ≠ .error (.inc .fuel)) :
     view (scanIncFile fs n1 stack cur pos (pre ++ FTok.incl f true :: post) st) =
-      view (scanIncFile fs n2 stack cur pos (pre ++ (body ++ post)) st) ∨
-    scanIncFile fs n1 stack cur pos (pre ++ FTok.incl f true :: post) st = .error (.ctx .unclosedAtEOF) := by
+      view (scanIncFile fs n2 stack cur pos (pre ++ (body ++ post)) st) := by
   refine prefix_lift fs stack cur pre (FTok.incl f true :: post) (body ++ post)
-    (fun a b => view a = view b ∨ a = .error (.ctx .unclosedAtEOF)) (fun e => Or.inl rfl) ?_ n1 n2 pos st h1 h2
+    (fun a b => view a = view b) (fun e => rfl) ?_ n1 n2 pos st h1 h2
   intro m p st1 g1 g2
-  have := textual_at fs stack cur p f body post st1 hf hincl hjs hs m m g1 g2
-  split at this
-  · exact Or.inl (by rw [this.1, this.2])
-  · split at this
-    · exact Or.inl (by rw [this.1, this.2])
-    · split at this
-      · exact Or.inr this
-      · exact Or.inl this
+  exact textual_at fs stack cur p f body post st1 hf hincl hjs hs m m g1 g2
 
-/-- (6, errors) every error of the cut run other than `unclosedAtEOF` is the error of the spliced run, up to its
-    position; in particular a context error about a misplaced directive is the same in both runs -/
+/-- (6, errors) every error of the cut run is the error of the spliced run, up to its position; in particular a
+    context error about a misplaced directive — and `unclosedAtEOF` at the end of the root file — is the same in both
+    runs.  RESTATED (stronger) after the repair of `processEOF`: the hypothesis `e ≠ .ctx .unclosedAtEOF` is gone. -/
 theorem include_is_textual_error (fs : FS) (stack : List (Nat × Nat)) (cur pos f : Nat) (pre body post : List FTok)
     (st : PScan) (hf : fs.get? f = some (.file body)) (hincl : ∀ g v, FTok.incl g v ∉ body)
     (hjs : ∀ d, FTok.dir d ∈ body → d.kind ≠ Kind.Jsight) (hs : stack.any (·.1 == cur) = false) (n1 n2 : Nat)
     (e : ProjErr) (h1 : scanIncFile fs n1 stack cur pos (pre ++ FTok.incl f true :: post) st = .error e)
-    (he : e ≠ .inc .fuel) (he' : e ≠ .ctx .unclosedAtEOF)
+    (he : e ≠ .inc .fuel)
     (h2 : scanIncFile fs n2 stack cur pos (pre ++ (body ++ post)) st ≠ .error (.inc .fuel)) :
     ∃ e', scanIncFile fs n2 stack cur pos (pre ++ (body ++ post)) st = .error e' ∧ erasePos e' = erasePos e := by
   have h1' : scanIncFile fs n1 stack cur pos (pre ++ FTok.incl f true :: post) st ≠ .error (.inc .fuel) := by
     rw [h1]; intro h; injection h with h; exact he h
-  rcases include_is_textual fs stack cur pos f pre body post st hf hincl hjs hs n1 n2 h1' h2 with h | h
-  · rw [h1] at h
-    cases hr : scanIncFile fs n2 stack cur pos (pre ++ (body ++ post)) st with
-    | ok r' => rw [hr] at h; simp [view] at h
-    | error e' =>
-      rw [hr] at h
-      simp only [view, Except.error.injEq] at h
-      exact ⟨e', rfl, h.symm⟩
-  · rw [h1] at h; injection h with h; exact absurd h he'
+  have h := include_is_textual fs stack cur pos f pre body post st hf hincl hjs hs n1 n2 h1' h2
+  rw [h1] at h
+  cases hr : scanIncFile fs n2 stack cur pos (pre ++ (body ++ post)) st with
+  | ok r' => rw [hr] at h; simp [view] at h
+  | error e' =>
+    rw [hr] at h
+    simp only [view, Except.error.injEq] at h
+    exact ⟨e', rfl, h.symm⟩
 
 /-- (6, cut ⇒ spliced) if the project with the INCLUDE is accepted, so is the spliced text, with the same context,
     pending directive and forest -/
@@ -298,52 +299,38 @@ theorem include_is_textual_ok (fs : FS) (stack : List (Nat × Nat)) (cur pos f :
       r'.pending = r.pending ∧ closeAll r'.ctx.frames r'.ctx.roots = closeAll r.ctx.frames r.ctx.roots := by
   have h1' : scanIncFile fs n1 stack cur pos (pre ++ FTok.incl f true :: post) st ≠ .error (.inc .fuel) := by
     rw [h1]; intro h; cases h
-  rcases include_is_textual fs stack cur pos f pre body post st hf hincl hjs hs n1 n2 h1' h2 with h | h
-  · rw [h1] at h
-    cases hr : scanIncFile fs n2 stack cur pos (pre ++ (body ++ post)) st with
-    | error e => rw [hr] at h; simp [view] at h
-    | ok r' =>
-      rw [hr] at h
-      simp only [view, Except.ok.injEq, Prod.mk.injEq] at h
-      exact ⟨r', rfl, h.1.symm, h.2.symm, by rw [h.1]⟩
-  · rw [h1] at h; cases h
+  have h := include_is_textual fs stack cur pos f pre body post st hf hincl hjs hs n1 n2 h1' h2
+  rw [h1] at h
+  cases hr : scanIncFile fs n2 stack cur pos (pre ++ (body ++ post)) st with
+  | error e => rw [hr] at h; simp [view] at h
+  | ok r' =>
+    rw [hr] at h
+    simp only [view, Except.ok.injEq, Prod.mk.injEq] at h
+    exact ⟨r', rfl, h.1.symm, h.2.symm, by rw [h.1]⟩
 
 /-- (6, spliced ⇒ cut) if the spliced text is accepted, the project with the INCLUDE is accepted with the same
-    context, pending directive and forest — or it is refused with `unclosedAtEOF`: the only thing an INCLUDE adds is
-    that `f` must not end inside a parenthesised context (the side condition: after `pre ++ body`, with the pending
-    directive placed, no explicit frame is open) -/
+    context, pending directive and forest.  RESTATED (stronger) after the repair of `processEOF`: the alternative
+    "or it is refused with `unclosedAtEOF`" (the included file had to end outside every parenthesised context) is
+    gone — cutting a piece without INCLUDE and JSIGHT out of an accepted file into a file of its own, at ANY place,
+    gives an accepted project. -/
 theorem include_is_textual_conv (fs : FS) (stack : List (Nat × Nat)) (cur pos f : Nat) (pre body post : List FTok)
     (st r' : PScan) (hf : fs.get? f = some (.file body)) (hincl : ∀ g v, FTok.incl g v ∉ body)
     (hjs : ∀ d, FTok.dir d ∈ body → d.kind ≠ Kind.Jsight) (hs : stack.any (·.1 == cur) = false) (n1 n2 : Nat)
     (h1 : scanIncFile fs n1 stack cur pos (pre ++ FTok.incl f true :: post) st ≠ .error (.inc .fuel))
     (h2 : scanIncFile fs n2 stack cur pos (pre ++ (body ++ post)) st = .ok r') :
-    (∃ r, scanIncFile fs n1 stack cur pos (pre ++ FTok.incl f true :: post) st = .ok r ∧ r.ctx = r'.ctx ∧
-      r.pending = r'.pending ∧ closeAll r.ctx.frames r.ctx.roots = closeAll r'.ctx.frames r'.ctx.roots) ∨
-    scanIncFile fs n1 stack cur pos (pre ++ FTok.incl f true :: post) st = .error (.ctx .unclosedAtEOF) := by
+    ∃ r, scanIncFile fs n1 stack cur pos (pre ++ FTok.incl f true :: post) st = .ok r ∧ r.ctx = r'.ctx ∧
+      r.pending = r'.pending ∧ closeAll r.ctx.frames r.ctx.roots = closeAll r'.ctx.frames r'.ctx.roots := by
   have h2' : scanIncFile fs n2 stack cur pos (pre ++ (body ++ post)) st ≠ .error (.inc .fuel) := by
     rw [h2]; intro h; cases h
-  have key := prefix_lift fs stack cur pre (FTok.incl f true :: post) (body ++ post)
-    (fun a b => ∀ r', b = .ok r' →
-      (∃ r, a = .ok r ∧ r.ctx = r'.ctx ∧ r.pending = r'.pending) ∨ a = .error (.ctx .unclosedAtEOF))
-    (fun e r' h => by cases h) ?_ n1 n2 pos st h1 h2' r' h2
-  · rcases key with ⟨r, hr, hc, hp⟩ | h
-    · exact Or.inl ⟨r, hr, hc, hp, by rw [hc]⟩
-    · exact Or.inr h
-  · intro m p st1 g1 g2 r2 hr2
-    have := textual_at fs stack cur p f body post st1 hf hincl hjs hs m m g1 g2
-    split at this
-    · rw [this.2] at hr2; cases hr2
-    · split at this
-      · rw [this.2] at hr2; cases hr2
-      · split at this
-        · exact Or.inr this
-        · rw [hr2] at this
-          cases hc : scanIncFile fs m stack cur p (FTok.incl f true :: post) st1 with
-          | error e => rw [hc] at this; simp [view] at this
-          | ok r =>
-            rw [hc] at this
-            simp only [view, Except.ok.injEq, Prod.mk.injEq] at this
-            exact Or.inl ⟨r, rfl, this.1, this.2⟩
+  have h := include_is_textual fs stack cur pos f pre body post st hf hincl hjs hs n1 n2 h1 h2'
+  rw [h2] at h
+  cases hc : scanIncFile fs n1 stack cur pos (pre ++ FTok.incl f true :: post) st with
+  | error e => rw [hc] at h; simp [view] at h
+  | ok r =>
+    rw [hc] at h
+    simp only [view, Except.ok.injEq, Prod.mk.injEq] at h
+    exact ⟨r, rfl, h.1, h.2, by rw [h.1]⟩
+
 /-! ## Non-vacuity checks -/
 
 local instance : DecidableEq Tree := decTree
@@ -395,12 +382,27 @@ example : scanProject [(0, .file [.dir { kind := .Body, id := 9 }, .incl 7])] 0
 example : scanProject [(0, .file [.dir { kind := .Body, id := 9 }, .incl 1]), (1, .file [.dir jsightD])] 0
     = .error (.ctx (.incorrectContext 9)) := by decide +kernel
 
-/-- the right-hand alternative of `include_is_textual`: an included file must not leave a parenthesised context open,
-    although the spliced text is fine -/
+/-- the former exception of `include_is_textual` (before the repair of `processEOF`: `unclosedAtEOF` at the end of
+    file 1): an included file may leave a parenthesised context open, the including file closes it — cut and spliced
+    give the same forest -/
 example : scanProject [(0, .file [.incl 1, .dir getA, .close]), (1, .file [.dir urlX])] 0
-    = .error (.ctx .unclosedAtEOF) := by decide +kernel
+    = .ok ([.node urlX [.node getA []]], [(6, [(0, 0)]), (3, [])]) := by decide +kernel
 example : scanProject [(0, .file [.dir urlX, .dir getA, .close])] 0
     = .ok ([.node urlX [.node getA []]], [(6, []), (3, [])]) := by decide +kernel
+/-- `URL /a⏎(⏎  INCLUDE inc⏎)`: the root opens a parenthesis, INCLUDEs a file with a child directive, and closes the
+    parenthesis after the INCLUDE: ACCEPTED (before the repair of `processEOF`: `unclosedAtEOF` at the end of file 1) -/
+example : scanProject [(0, .file [.dir jsightD, .dir urlX, .incl 1, .close]), (1, .file [.dir getA])] 0
+    = .ok ([.node jsightD [], .node urlX [.node getA []]], [(1, []), (6, []), (3, [(0, 2)])]) := by decide +kernel
+/-- … also two files deep, the innermost file being empty -/
+example : scanProject [(0, .file [.dir urlX, .incl 1, .close]), (1, .file [.dir getA, .incl 2]), (2, .file [])] 0
+    = .ok ([.node urlX [.node getA []]], [(6, []), (3, [(0, 1)])]) := by decide +kernel
+/-- a parenthesis left open at the end of the ROOT file is still rejected — whether it was opened in the root file … -/
+example : scanProject [(0, .file [.dir jsightD, .dir urlX, .incl 1]), (1, .file [.dir getA])] 0
+    = .error (.ctx .unclosedAtEOF) := by decide +kernel
+example : scanProject [(0, .file [.dir urlX, .dir getA])] 0 = .error (.ctx .unclosedAtEOF) := by decide +kernel
+/-- … or in an included file (reported at the end of the root file, as for the spliced text) -/
+example : scanProject [(0, .file [.incl 1, .dir getA]), (1, .file [.dir urlX])] 0
+    = .error (.ctx .unclosedAtEOF) := by decide +kernel
 
 /-- textual inclusion at the end of the included file: the misplaced Body ends the included file and is placed there
     (context error); in the spliced text the following INCLUDE places it as well (before the repair F42 the INCLUDE
